@@ -29,6 +29,10 @@ type clMethod struct {
 // FContext, a channel, a function): code of the caller runs, or the goroutine may block, when they are used
 var clForeignParams = map[string]bool{}
 
+// functions and methods of the file under translation whose body sends on a channel, directly or through another
+// function of the file: calling one is a blocking operation as well
+var clBlockingFuncs = map[string]bool{}
+
 func clMentionsForeign(e ast.Expr) bool {
 	id, ok := e.(*ast.Ident)
 	return ok && clForeignParams[id.Name]
@@ -69,6 +73,12 @@ func clExprEvents(recv string, locked map[string]bool, e ast.Node, write bool, o
 			// a method of a caller-supplied value, or a function handed one: the caller's code runs
 			if sel, ok := x.Fun.(*ast.SelectorExpr); ok && clMentionsForeign(sel.X) {
 				*out = append(*out, "FForeign")
+			} else if id, ok := x.Fun.(*ast.Ident); ok && clBlockingFuncs[id.Name] {
+				*out = append(*out, "FForeign")
+			} else if sel, ok := x.Fun.(*ast.SelectorExpr); ok && clBlockingFuncs[sel.Sel.Name] && !locked[sel.Sel.Name] {
+				if id, ok := sel.X.(*ast.Ident); ok && id.Name == recv {
+					*out = append(*out, "FForeign")
+				}
 			} else if id, ok := x.Fun.(*ast.Ident); !ok || (id.Name != "len" && id.Name != "cap" && id.Name != "delete" && id.Name != "make") {
 				for _, a := range x.Args {
 					if clMentionsForeign(a) {
@@ -277,6 +287,43 @@ func clFile(repo, rel, typ string) ([]clMethod, error) {
 			continue
 		}
 		decls = append(decls, decl{fd, fd.Recv.List[0].Names[0].Name})
+	}
+	// functions and methods that send on a channel, directly or through one another
+	clBlockingFuncs = map[string]bool{}
+	bodies := map[string]*ast.BlockStmt{}
+	for _, d := range f.Decls {
+		if fd, ok := d.(*ast.FuncDecl); ok && fd.Body != nil {
+			bodies[fd.Name.Name] = fd.Body
+		}
+	}
+	for changed := true; changed; {
+		changed = false
+		for name, body := range bodies {
+			if clBlockingFuncs[name] {
+				continue
+			}
+			ast.Inspect(body, func(n ast.Node) bool {
+				switch x := n.(type) {
+				case *ast.FuncLit:
+					return false
+				case *ast.SendStmt:
+					clBlockingFuncs[name] = true
+				case *ast.CallExpr:
+					if id, ok := x.Fun.(*ast.Ident); ok && clBlockingFuncs[id.Name] {
+						clBlockingFuncs[name] = true
+					}
+					if sel, ok := x.Fun.(*ast.SelectorExpr); ok && clBlockingFuncs[sel.Sel.Name] {
+						if _, isBody := bodies[sel.Sel.Name]; isBody {
+							clBlockingFuncs[name] = true
+						}
+					}
+				}
+				return true
+			})
+			if clBlockingFuncs[name] {
+				changed = true
+			}
+		}
 	}
 	// methods that take the lock themselves
 	locked := map[string]bool{}
